@@ -1425,9 +1425,8 @@ impl SubRule {
                             debug_assert!(res_word.in_bounds(sp));
                             let lc = self.apply_seg_mods(&mut res_word, sp, m, v, out_state.position)?;
                             total_len_change[sp.syll_index] += lc;
-                            if lc > 0 {
-                                last_pos.seg_index += lc.unsigned_abs() as usize;
-                            }
+                            // move past the whole (possibly already long) segment, so that it is not matched again from its middle
+                            last_pos.seg_index += res_word.seg_length_at(sp) - 1;
                             if self.input.len() == self.output.len() {
                                 if state_index < self.input.len() -1 {
                                     last_pos.seg_index +=1;
